@@ -129,6 +129,50 @@ def run(repo: Repo, chk: Check) -> None:
     chk.ob('R-PAIR', sk.qualname, n_exp == 8 and n_imp == 8 and term_len(body_i) == 56 - 8, 'salt is the first 8 bytes on both sides', sk.loc,
            {'export_salt_len': n_exp, 'import_salt': vrepr(salt_i), 'import_body': vrepr(body_i)},
            what=f'salt length on export is {n_exp}, on import {n_imp}; the rest must be the {56 - 8}-byte box')
+    # a passphrase given as text is turned into the same bytes on both sides
+    class _StrPw(KeyHooks):
+        scrub_marks = True
+
+        def inline(self, it, fi):
+            return fi.name == 'get_passphrase' or super().inline(it, fi)
+
+        def isinstance(self, it, obj, classes):
+            from ..absint import Builtin
+            if isinstance(obj, Sym) and obj.name == 'pw':
+                return any(isinstance(c, Builtin) and c.name == 'str' for c in classes)
+            if isinstance(obj, App) and obj.op in ('mcall:encode', 'scrub'):
+                return any(isinstance(c, Builtin) and c.name == 'bytes' for c in classes)
+            return NotImplemented
+
+        def truth(self, it, term):
+            if isinstance(term, Sym) and term.name == 'pw':
+                return True
+            return super().truth(it, term)
+
+        def compare(self, it, op, a, b, node):
+            if op in ('is', 'is not') and any(isinstance(x, Sym) and x.name == 'pw' for x in (a, b)) and (a is None or b is None):
+                return op == 'is not'  # a passphrase was given
+            return NotImplemented
+
+        def call(self, it, callee, args, kwargs, node):
+            if isinstance(callee, FuncRef) and callee.fi is not None and callee.fi.qualname == 'pytezos.crypto.key.get_passphrase':
+                return NotImplemented  # interpreted here
+            return super().call(it, callee, args, kwargs, node)
+
+    class _StrPwImport(_StrPw, ImportHooks):
+        def call(self, it, callee, args, kwargs, node):
+            if isinstance(callee, FuncRef) and callee.fi is not None and callee.fi.qualname == 'pytezos.crypto.key.get_passphrase':
+                return NotImplemented
+            return ImportHooks.call(self, it, callee, args, kwargs, node)
+
+    r_e = Interp(repo, _StrPw(repo), max_depth=3).run_method(sk, lambda: (key_obj(b'sp'), [], {'passphrase': Sym('pw', 'str')}))
+    hi = _StrPwImport(repo)
+    hi.rows = rows
+    r_i = Interp(repo, hi, max_depth=3).run_function(fe, [fake], {'passphrase': Sym('pw', 'str')}, self_val=ClassRef(KEY))
+    pe = sorted({vrepr(e[3].get('password')) for e in ext_events(r_e, 'hashlib.pbkdf2_hmac')})
+    pi = sorted({vrepr(e[3].get('password')) for e in ext_events(r_i, 'hashlib.pbkdf2_hmac')})
+    chk.ob('R-PAIR', sk.qualname, bool(pe) and pe == pi, 'a text passphrase becomes the same bytes on export and import', sk.loc, {'export': pe, 'import': pi},
+           what=f'secret_key feeds the KDF with {pe} for a str passphrase, from_encoded_key with {pi}: a key exported with a text passphrase cannot be imported with it')
     enc = encodes(rexp)
     okcat = bool(enc) and isinstance(enc[0][3], App) and enc[0][3].op == 'cat' and vrepr(enc[0][3].args[0]).startswith("ext('pysodium.randombytes'")
     chk.ob('R-PAIR', sk.qualname, okcat, 'exported payload is salt || box', sk.loc, {'payload': vrepr(enc[0][3])[:200] if enc else None},
@@ -209,11 +253,134 @@ def run(repo: Repo, chk: Check) -> None:
                 ok = ok and not has_val
         chk.ob('R-PATH', fm.qualname, ok and bool(res), f'validate={validate}: checksum validation {"precedes" if validate else "is skipped before"} seed derivation', fm.loc,
                what='the mnemonic checksum is not validated before the seed is derived')
+    # BIP-39 arithmetic of the checksum test, in a length domain: n words = 11n bits = ENT + ENT/32 with ENT = 32n/3
+    vm = repo.func('pytezos.crypto.key.validate_mnemonic')
+    lengths = repo.const('pytezos.crypto.key.VALID_MNEMONIC_LENGTHS')
+    chk.ob('R-TABLE', vm.qualname, sorted(lengths) == [12, 15, 18, 21, 24], 'valid mnemonic lengths are 12, 15, 18, 21, 24 words', vm.loc, {'found': lengths},
+           what=f'VALID_MNEMONIC_LENGTHS is {lengths}')
+    for n in sorted(set(lengths) | {12, 24}):
+        ent, cs = 32 * n // 3, n // 3
+        res = Interp(repo, MnemonicHooks(n), max_depth=2).run_function(vm, [Sym('mnemonic', 'str')])
+        evs = [e for p in res for e in p.events if isinstance(e, tuple)]
+        unhex = {(e[1], e[2]) for e in evs if e[0] == 'unhexlify'}
+        sha_in = {(e[1], e[2]) for e in evs if e[0] == 'sha256-input'}
+        cmp_ = {(e[1], e[2]) for e in evs if e[0] == 'compare'}
+        outs = sorted({p.outcome for p in res})
+        ok = unhex == {(ent // 4, ent // 4)} and sha_in == {(ent // 8, ent // 8)} and cmp_ == {((cs, cs), (cs, cs))} and outs == ['raise', 'return']
+        chk.ob('R-GUARD', vm.qualname, ok, f'{n} words: the entropy is always {ent // 8} bytes and {cs} checksum bits are compared with {cs} bits of its SHA-256', vm.loc,
+               {'hex_digits_of_entropy': sorted(unhex), 'sha256_input_bytes': sorted(sha_in), 'compared_lengths': sorted(cmp_), 'outcomes': outs},
+               what=f'{n}-word mnemonics: the entropy handed to SHA-256 has {sorted(unhex)} hex digits (must be exactly {ent // 4}: leading zero nibbles are part of it) '
+                    f'and the compared bit strings have lengths {sorted(cmp_)} (must be {cs} and {cs}): valid mnemonics are rejected or invalid ones accepted')
     d = fm.node.args.defaults
     names = [a.arg for a in fm.node.args.args]
     dv = dict(zip(names[-len(d):], d))
     chk.ob('R-TABLE', fm.qualname, getattr(dv.get('validate'), 'value', None) is True, 'validate defaults to True', fm.loc,
            what='mnemonics are not validated by default')
+
+
+class SL:
+    """A text (or bytes) value of which only the length interval is known."""
+
+    def __init__(self, lo: int, hi: int, what: str = ''):
+        self.lo, self.hi, self.what = lo, hi, what
+
+    def key(self):
+        return ('SL', self.lo, self.hi, self.what)
+
+    def __repr__(self):
+        return f'<{self.what or "text"} of {self.lo}{"" if self.lo == self.hi else ".." + str(self.hi)} chars>'
+
+    def __deepcopy__(self, memo):
+        return self
+
+
+class IB:
+    """An integer of which only the interval is known."""
+
+    def __init__(self, lo: int, hi: int):
+        self.lo, self.hi = lo, hi
+
+    def key(self):
+        return ('IB', self.lo, self.hi)
+
+    def __deepcopy__(self, memo):
+        return self
+
+
+class MnemonicHooks(Hooks):
+    """Length domain for validate_mnemonic: n words, each an index below 2048."""
+
+    def __init__(self, n_words: int):
+        self.n = n_words
+
+    def inline(self, it, fi):
+        return fi.name == 'validate_mnemonic'
+
+    def attr(self, it, obj, name, node):
+        if isinstance(obj, (SL, IB)):
+            return App('attr', obj, name)
+        return NotImplemented
+
+    def subscript(self, it, obj, idx, node):
+        if isinstance(obj, SL) and isinstance(idx, slice) and all(x is None or isinstance(x, int) for x in (idx.start, idx.stop)) and idx.step is None:
+            def cut(n: int) -> int:
+                return len(range(*idx.indices(n)))
+            return SL(cut(obj.lo), cut(obj.hi), obj.what)
+        return NotImplemented
+
+    def call(self, it, callee, args, kwargs, node):
+        from ..absint import BoundMethod, Builtin, ModRef
+        if isinstance(callee, BoundMethod) and callee.name == 'join' and isinstance(callee.recv, str) and args \
+                and isinstance(args[0], (list, tuple)) and all(isinstance(x, SL) for x in args[0]):
+            k = len(callee.recv) * max(0, len(args[0]) - 1)
+            return SL(sum(x.lo for x in args[0]) + k, sum(x.hi for x in args[0]) + k, 'bits')
+        if isinstance(callee, App) and callee.op == 'attr':
+            recv, name = callee.args
+            if isinstance(recv, SL):
+                if name == 'zfill' and isinstance(args[0], int):
+                    return SL(max(recv.lo, args[0]), max(recv.hi, args[0]), recv.what)
+                if name == 'rstrip':
+                    return recv
+            if name == 'split' and isinstance(recv, (Sym, App)):
+                return [Sym(f'word{i}', 'str') for i in range(self.n)]
+            if name == 'normalize_string':
+                return Sym('normalized', 'str')
+            if name == 'index':
+                return IB(0, 2047)  # position in the 2048-word list
+            if name == 'hexdigest':
+                return SL(64, 64, 'sha256 hex')
+            if name == 'join' and isinstance(args[0], (list, tuple)) and all(isinstance(x, SL) for x in args[0]):
+                return SL(sum(x.lo for x in args[0]), sum(x.hi for x in args[0]), 'bits')
+        if isinstance(callee, Builtin):
+            if callee.name == 'bin' and isinstance(args[0], IB):
+                return SL(2 + max(1, args[0].lo.bit_length()), 2 + max(1, args[0].hi.bit_length()), 'bin')
+            if callee.name == 'hex' and isinstance(args[0], IB):
+                return SL(2 + max(1, (args[0].lo.bit_length() + 3) // 4), 2 + max(1, (args[0].hi.bit_length() + 3) // 4), 'hex')
+            if callee.name == 'int' and isinstance(args[0], SL) and len(args) == 2 and args[1] in (2, 16):
+                per = 1 if args[1] == 2 else 4
+                return IB(0, (1 << (per * args[0].hi)) - 1)
+            if callee.name == 'len' and isinstance(args[0], SL) and args[0].lo == args[0].hi:
+                return args[0].lo
+            if callee.name == 'map' and isinstance(args[1], list):
+                return [it.call(args[0], [x], {}, node) for x in args[1]]
+        if isinstance(callee, ModRef):
+            if callee.name == 'binascii.unhexlify' and isinstance(args[0], SL):
+                it.event('unhexlify', args[0].lo, args[0].hi)
+                return SL(args[0].lo // 2, args[0].hi // 2, 'entropy bytes')
+            if callee.name == 'hashlib.sha256':
+                it.event('sha256-input', getattr(args[0], 'lo', None), getattr(args[0], 'hi', None))
+                return Sym('sha256')
+            if callee.name.endswith('Mnemonic'):
+                return Sym('mnemonic-tool')
+        if isinstance(callee, App) and callee.op == 'attr' and callee.args[1] == 'hexdigest':
+            return SL(64, 64, 'sha256 hex')
+        return NotImplemented
+
+    def compare(self, it, op, a, b, node):
+        if isinstance(a, SL) and isinstance(b, SL) and op in ('==', '!='):
+            it.event('compare', (a.lo, a.hi), (b.lo, b.hi))
+            return App('texts-differ' if op == '!=' else 'texts-equal', a, b)
+        return NotImplemented
 
 
 class _ExportHooks(KeyHooks):
